@@ -80,6 +80,31 @@ CHECKS = {
             "for lexicographic file order. Mismatches are diagnosed by re-running the reference with one option flipped.",
             "trusted: json, the reference reader in checks/c19.py; one copy of a contest per data block",
             "DESIGN.md section 4, C19"),
+    "C17": ("reference-model monitor: explicit enumeration of (batch, position) pairs vs the real lookups over the whole valid range; contract-style checks of prep_manifest",
+            "Exploration by runtime monitoring: generated manifests (empty first/last/consecutive batches, single batch, "
+            "phantom batch of 0/1/many cards) go through the real Dominion/Hart prep_manifest, then sample_from_manifest is "
+            "called on the whole valid sample-number range in shuffled order and on boundary-only and phantom-only samples; "
+            "each looked-up card is compared with a reference enumeration, injectivity, in-batch position, selection order "
+            "and phantom MVRs are checked; sample_from_cvrs must return the CVRs in selection order with matching ids; "
+            "oversized / undersized manifests must be refused.",
+            "trusted: pandas; unique (tabulator, batch) labels; Dominion 1-based and Hart 0-based lookups as documented",
+            "DESIGN.md section 4, C17"),
+    "C04": ("brute-force reference monitor: recount of every returned assertion from the raw rankings and an n!-order sufficiency / auditability oracle run beside the real compute_raire_assertions",
+            "Exploration by runtime monitoring: for each generated profile (2-6 candidates, partial rankings, blanks, cards "
+            "lacking the contest, ties at the first/last round, symmetric profiles, right/runner-up/random reported winner, "
+            "both difficulty functions, order hints) the real generator's list is checked: every assertion recounts to its "
+            "reported tallies with the winner strictly ahead; every elimination order ending in another candidate is "
+            "contradicted; the list is empty exactly when even all true assertions together leave an order uncontradicted.",
+            "trusted: the definitions of NEB/NEN and of 'contradicts' in vlib/irv.py (written from the RAIRE papers, not from "
+            "the code); more than 6 candidates are not explored",
+            "DESIGN.md section 4, C04"),
+    "C15": ("brute-force reference monitor: min-max difficulty over all true assertions and all n! orders vs max difficulty of the real result",
+            "Exploration by runtime monitoring: on auditable profiles (3-6 candidates) the optimum = max over alternative "
+            "orders of the cheapest true assertion contradicting it is computed by brute force with the shipped difficulty "
+            "function and compared (rtol 1e-9) with the largest difficulty in the list returned by the real search, with and "
+            "without (right or wrong) order hints, for both difficulty functions.",
+            "trusted: vlib/irv.py; agap = 0; more than 6 candidates are not explored",
+            "DESIGN.md section 4, C15"),
 }
 
 PENDING_REASON = ("check designed in DESIGN.md section 4 but not yet built in this session; "
